@@ -15,6 +15,36 @@ CHECKS = {
          "Trusts the 40-line reference evaluator/glob matcher in checks/c07_tagexpr_v2.py and that behaviours depend only on expression structure up to the bound; "
          "operand spellings outside the alphabet are not covered.",
          "DESIGN.md section 5, C07"),
+
+ "C01": ("exploration",
+         "exhaustive small-scope enumeration of feature trees x step-outcome deviations x configurations, plus every single hook/cleanup fault point, executed on the real parser+runner and compared with a reference interpreter",
+         "All one-feature shapes up to the item bound (scenarios, outlines, rules, backgrounds) followed by a second feature; every single step position x every non-pass outcome "
+         "(pairs on the smallest shapes) x {default, --stop, --dry-run} and, with one tag placed on every element in turn, {--wip, --tags t, --tags 'not t', --stop --tags t}; every hook invocation "
+         "raising (2 exception kinds) and a cleanup at every layer. The verdict of ModelRunner.run() is compared with the reference verdict in both directions; a subset is re-run through "
+         "behave.__main__.main() on real files and `python -m behave` for the exit code.",
+         "Trusts the reference interpreter vlib/refrun.py (written from the property statements) and the abstract-program renderer; bounded by shape size and deviation count; the exit-code mapping is checked on a subset.",
+         "DESIGN.md section 5, C01"),
+ "C03": ("exploration",
+         "exhaustive enumeration of the Status enum, of all forced child-status tuples up to a length bound on real model objects, and of all statuses after the enumerated real runs and retry histories",
+         "Status algebra over all members incl. the docs/appendix.status.rst table; compute_status of real Scenario/Feature/Rule/ScenarioOutline objects on all child-status tuples up to length 3/4 (thorough 4/6) "
+         "against the clause-by-clause accept-set of the statement; every element status after every real run of the C01 enumeration (incl. hook/cleanup faults, --stop/abort remainders, never-started features); "
+         "auto-retry and re-run histories with a different outcome per attempt compared with a fresh run of the last attempt.",
+         "Accept-sets are derived from the statement; child tuples no single run can produce are reported in the evidence but do not fail; an element skipped by user code may be 'skipped' (documented behaviour).",
+         "DESIGN.md section 5, C03"),
+ "C11": ("model_checking",
+         "exhaustive pattern x text enumeration for four matcher kinds plus explicit-state breadth-first search over registration histories of the real StepRegistry against a reference registry",
+         "All token sequences of length 1-3 over the pattern alphabet rendered for parse/cfparse/re/re0 x all instance and near-miss texts, arguments observed through the real Match.run; breadth-first search over "
+         "register / use_step_matcher / module-boundary histories to depth 3 (thorough 4) with canonical-state deduplication, every lookup (step type x text) compared with a reference registry after every transition; "
+         "a no-dedup cross-check validates the abstraction.",
+         "Trusts the reference instance-of decision and reference registry in checks/c11_step_matching.py; pattern/text alphabets are finite; re0 is only required to bind instances.",
+         "DESIGN.md section 5, C11"),
+ "C20": ("exploration",
+         "exhaustive enumeration of option placements (nowhere / file / command line / both) for every option of the real OPTIONS table, option pairs, file kinds and locations, the -D grammar and userdata getters",
+         "Every file-configurable option (derived from behave.configuration.OPTIONS at run time) in all four placements x file kinds (behave.ini, setup.cfg, tox.ini, pyproject.toml) x locations (cwd, HOME); "
+         "all pairs over a core (thorough: all options); relative paths/outfiles against the config file's directory; the complete -D grammar; userdata file vs -D; getters x values; two Configurations built in one "
+         "process in both orders must equal fresh ones. Each case builds the real Configuration in its own scratch directory.",
+         "Trusts the per-kind value generators; options rewritten by mode switches are compared only where the switch does not apply; where the statement is silent (append options given in both places) both documented outcomes are accepted.",
+         "DESIGN.md section 5, C20"),
 }
 PENDING_REASON = "check not built yet in this round (planned, see DESIGN.md section 5); nothing is claimed for it so far"
 
